@@ -150,6 +150,9 @@ func main() {
 		for _, r := range p.Renamed {
 			fmt.Println("NOTE: role", r)
 		}
+		for _, o := range p.Opaque {
+			fmt.Printf("NOTE: %s (%s:%d) is opaque to the rules: %s\n", o.fn, o.file, o.from, o.why)
+		}
 		if len(p.Inlined) > 0 {
 			fmt.Printf("NOTE: %d calls to functions that are new since the pinned tree were replaced by the callee's body before the rules ran\n", len(p.Inlined))
 		}
@@ -157,6 +160,7 @@ func main() {
 			fmt.Println("NOTE: new function kept as a call:", r)
 		}
 		known := loadKnown(filepath.Join(*verif, "known_findings.json"))
+		openFindings = known
 		cache := map[string]*RuleResult{}
 		for _, pr := range props {
 			rules := rulesFor(pr, *tier)
@@ -194,6 +198,28 @@ func main() {
 	os.Exit(exit)
 }
 
+// opaqueList: the functions whose shape the rules cannot look through (opaque.go); none on the unchanged tree.
+func opaqueList(p *Prog) []string {
+	out := []string{}
+	for _, o := range p.Opaque {
+		out = append(out, fmt.Sprintf("%s (%s:%d): %s", o.fn, o.file, o.from, o.why))
+	}
+	return out
+}
+
+// openFindings: the recorded, unrepaired findings; a report that is one of them is never withdrawn as
+// `opaque` — it stays the known finding it is.
+var openFindings []KnownFinding
+
+func isOpenFinding(rule, key string) bool {
+	for _, k := range openFindings {
+		if k.Status == "open" && k.Rule == rule && k.Key == key {
+			return true
+		}
+	}
+	return false
+}
+
 func runRule(p *Prog, r *Rule, tier string) (res *RuleResult) {
 	c := &Ctx{rule: r, tier: tier}
 	defer func() {
@@ -219,11 +245,38 @@ func runRule(p *Prog, r *Rule, tier string) (res *RuleResult) {
 			c.obs[i].Key = fmt.Sprintf("%s#%d", k, seen[k])
 		}
 	}
-	res = &RuleResult{Rule: r.ID, Doc: r.Doc, Instances: len(c.obs), Min: r.Min, Notes: c.notes, Obs: c.obs}
+	// a report inside a function whose shape the normaliser cannot look through is withdrawn: the rule is
+	// undecided for that construct (opaque.go)
+	withdrawn := ""
+	if len(p.Opaque) > 0 {
+		kept := c.obs[:0]
+		for _, o := range c.obs {
+			if !o.OK && !isOpenFinding(r.ID, o.Key) {
+				where, opaque := p.opaqueAt(o.Pos)
+				if !opaque && !strings.Contains(o.Pos, ":") {
+					// a finding about the module as a whole ("no function does X any more") while some function
+					// cannot be looked into: X may be happening there
+					where, opaque = p.Opaque[0].fn+" ("+p.Opaque[0].file+"): "+p.Opaque[0].why, true
+				}
+				if opaque {
+					if withdrawn == "" {
+						withdrawn = fmt.Sprintf("%s at %s is not decided: the construct lies in %s — a shape this analysis cannot look through", o.Key, o.Pos, where)
+					}
+					continue
+				}
+			}
+			kept = append(kept, o)
+		}
+		c.obs = kept
+	}
+	res = &RuleResult{Rule: r.ID, Doc: r.Doc, Instances: len(c.obs), Min: r.Min, Notes: c.notes, Obs: c.obs, Undecided: withdrawn}
 	for _, o := range c.obs {
 		if !o.OK {
 			res.Failed++
 		}
+	}
+	if withdrawn != "" {
+		return res
 	}
 	if res.Instances < r.Min && res.Failed == 0 {
 		undecided("rule %s examined %d instances, fewer than the %d confirmed by hand: its anchors no longer match the code (a rule that matches nothing would pass vacuously)", r.ID, res.Instances, r.Min)
@@ -341,6 +394,7 @@ func report(p *Prog, prop, tier string, seed int, results []*RuleResult, known [
 				"functions_analysed":  len(p.Funcs),
 				"packages":            len(p.Pkgs),
 				"callgraph_nodes":     len(p.CG.Nodes),
+				"opaque_functions":    opaqueList(p),
 				"samples":             samples,
 				"checker_cmd":         fmt.Sprintf("bin/vuegocheck -property %s -tier %s -repo %s", prop, tier, p.Repo),
 				"trusted_base":        []string{"go/types and go/ssa (x/tools v0.50.0) build a faithful IR of the source", "VTA call graph is sound for the reflection-free part of the module (reflect.Value.Call and user-supplied FuncMap/NodeProcessor/fs.FS implementations are opaque)", "summaries of standard-library functions used by the rules (html.EscapeString escapes & < > \" '; sort.* sorts; sync.* locks)", "the hand-confirmed role tables and minimum instance counts in the checker"},
